@@ -72,8 +72,13 @@ def binop(op, a, b):
     return ["bin", op, a, b]
 
 
-def base(cols, rows):
-    return {"op": "base", "cols": list(cols), "rows": [list(r) for r in rows]}
+def base(cols, rows, spell=None):
+    """`cols` are the case-folded names every reference uses; `spell` is how the DataFrame is created (default: as folded)"""
+    fr = {"op": "base", "cols": list(cols), "rows": [list(r) for r in rows]}
+    if spell is not None and list(spell) != list(cols):
+        assert [x.lower() for x in spell] == list(cols)
+        fr["spell"] = list(spell)
+    return fr
 
 
 def refs_of(e) -> t.List[list]:
@@ -130,7 +135,10 @@ def on_to_lean(on):
 def frame_to_lean(fr):
     op = fr["op"]
     if op == "base":
-        return {"base": {"t": {"cols": fr["cols"], "rows": [[lval(v) for v in r] for r in fr["rows"]]}}}
+        tbl = {"cols": fr["cols"], "rows": [[lval(v) for v in r] for r in fr["rows"]]}
+        if fr.get("spell"):
+            return {"baseSpelled": {"t": tbl, "disp": fr["spell"]}}
+        return {"base": {"t": tbl}}
     if op == "where":
         return {"wher": {"src": fr["src"], "p": pexpr_to_lean(fr["p"])}}
     if op == "select":
@@ -195,7 +203,7 @@ def show_case(c: dict) -> str:
     for i, fr in enumerate(c["frames"]):
         op = fr["op"]
         if op == "base":
-            s = f"createDataFrame({fr['rows']}, {fr['cols']})"
+            s = f"createDataFrame({fr['rows']}, {fr.get('spell') or fr['cols']})"
         elif op == "where":
             s = f"f{fr['src']}.where({show_pexpr(fr['p'])})"
         elif op == "select":
@@ -284,7 +292,7 @@ def run_program(c: dict, session, F, make_base) -> t.Tuple[t.List[str], t.List[t
     for fr in c["frames"]:
         op = fr["op"]
         if op == "base":
-            df = make_base(session, fr["cols"], fr["rows"])
+            df = make_base(session, fr.get("spell") or fr["cols"], fr["rows"])
         elif op == "where":
             df = frames[fr["src"]].where(build_col(fr["p"], frames, F))
         elif op == "select":
@@ -308,7 +316,10 @@ def run_program(c: dict, session, F, make_base) -> t.Tuple[t.List[str], t.List[t
         frames.append(df)
     out = frames[-1]
     cols = list(out.columns)
-    rows = [[plain(v) for v in r] for r in out.collect()]
+    got = out.collect()
+    if got and list(got[0].__fields__) != cols:
+        raise AssertionError(f"Row fields {list(got[0].__fields__)} differ from df.columns {cols}")
+    rows = [[plain(v) for v in r] for r in got]
     return cols, rows
 
 
@@ -401,6 +412,8 @@ def on_variants(shape: str, li: int, ri: int, lcols: t.List[str], rcols: t.List[
         ("expr", {"form": "expr", "e": binop("eq", kref("l"), kref("r"))}),
         ("exprs", {"form": "exprs", "es": [binop("eq", kref("l"), kref("r")), binop("lt", nref("l"), nref("r"))]}),
         ("nullsafe", {"form": "expr", "e": binop("nseq", kref("l"), kref("r"))}),
+        # ONE Column mentioning each side twice (a conjunction), as opposed to a list of conditions
+        ("and", {"form": "expr", "e": binop("and", binop("eq", kref("l"), kref("r")), binop("lt", nref("l"), nref("r")))}),
         ("none", {"form": "none"}),
     ]
     if lnon != rnon and shape == "independent":
@@ -493,7 +506,7 @@ def single_join_cases(rng: random.Random, thorough: bool) -> t.List[dict]:
                     mults = MULTS if (thorough or how in ONE_PER_KIND) else [rng.choice(MULTS)]
                     base_prog, li, ri, lcols, rcols = lineage(shape, variant, "mixed", rcols0)
                     for on_kind, _ in on_variants(shape, li, ri, lcols, rcols):
-                        pick = mults if (thorough or on_kind in ("name", "expr")) else [rng.choice(mults)]
+                        pick = mults if (thorough or on_kind in ("name", "expr")) else ([rng.choice(mults)] + (["mixed"] if on_kind == "and" else []))
                         for mult in pick:
                             prog, li, ri, lcols, rcols = lineage(shape, variant, mult, rcols0)
                             on = dict(on_variants(shape, li, ri, lcols, rcols))[on_kind]
@@ -518,11 +531,44 @@ def single_join_cases(rng: random.Random, thorough: bool) -> t.List[dict]:
     return cases
 
 
+def spelled_cases(rng: random.Random, thorough: bool) -> t.List[dict]:
+    """column names spelled with different letter case on the two sides (PySpark resolves names case-insensitively and
+    reports each output column with the spelling of the attribute it comes from); df.columns / Row fields compared exactly"""
+    cases: t.List[dict] = []
+    lrows = [[1, 10], [2, 20], [2, 25], [None, 99]]
+    rrows = [[2, 7], [3, 8], [None, 9]]
+    variants = [
+        ("key", ["Cust_ID", "Total"], ["cust_id", "Region"]),          # only the key differs in case
+        ("key-upper", ["cust_id", "total"], ["CUST_ID", "Region"]),
+        ("nonkey", ["Cust_ID", "Val"], ["cust_id", "val"]),            # a non-key name differs in case as well
+        ("same", ["Cust_ID", "Total"], ["Cust_ID", "Region"]),
+    ]
+    hows = SPELLINGS if thorough else ONE_PER_KIND
+    for vname, ls, rs in variants:
+        lc, rc = [x.lower() for x in ls], [x.lower() for x in rs]
+        for how in hows:
+            for on in ({"form": "name", "k": "cust_id"}, {"form": "names", "ks": ["cust_id"]},
+                       {"form": "expr", "e": binop("eq", ref_df(0, "cust_id"), ref_df(1, "cust_id"))}):
+                if on["form"] == "names" and not thorough and how not in ("inner", "outer"):
+                    continue
+                prog = [base(lc, lrows, ls), base(rc, rrows, rs), {"op": "join", "l": 0, "r": 1, "on": on, "how": how}]
+                cases.append({"frames": prog, "origin": f"spelled:{vname}:{how}:{on['form']}"})
+                if on["form"] == "name" and how in ("inner", "left", "outer"):
+                    cases.append({"frames": prog + [{"op": "where", "src": 2, "p": binop("gt", ref_name(lc[1]), lit(0))}], "origin": f"spelled:{vname}:{how}:name:where"})
+        # chains: the spelling of the first join's result feeds the second join
+        for h1, h2 in (("left", "left"), ("inner", "outer"), ("outer", "inner"), ("left", "semi")):
+            prog = [base(lc, lrows, ls), base(rc, rrows, rs), base(["cust_id", "zz"], [[2, 5], [1, 6]], ["CUST_id", "Zz"]),
+                    {"op": "join", "l": 0, "r": 1, "on": {"form": "name", "k": "cust_id"}, "how": h1},
+                    {"op": "join", "l": 3, "r": 2, "on": {"form": "name", "k": "cust_id"}, "how": h2}]
+            cases.append({"frames": prog, "origin": f"spelled:{vname}:chain:{h1}/{h2}"})
+    return cases
+
+
 def chain_cases(rng: random.Random, thorough: bool) -> t.List[dict]:
     """chains of 2 and 3 joins over independent inputs, followed by select/where on any side's columns"""
     cases: t.List[dict] = []
     kinds = ONE_PER_KIND
-    tables = [(["k", "v"], [1, 2, None, 2], 0), (["k", "w"], [1, 2, None, 3], 100), (["k", "z"], [1, 3, 3, None], 200), (["k", "y"], [1, 2, 3], 300)]
+    tables = [(["k", "v"], [1, 2, None, 3, 2], 0), (["k", "w"], [1, 2, None, 4], 100), (["k", "z"], [1, 3, 3, None], 200), (["k", "y"], [1, 2, 3], 300)]
     for n in (2, 3):
         hows_all = list(itertools.product(kinds, repeat=n))
         if not thorough:
@@ -647,6 +693,7 @@ def cases_for(ctx: Ctx) -> t.List[dict]:
     cases = corpus_cases()
     cases += single_join_cases(ctx.rng, ctx.thorough)
     cases += chain_cases(ctx.rng, ctx.thorough)
+    cases += spelled_cases(ctx.rng, ctx.thorough)
     cases += random_cases(ctx.rng, 3000 if ctx.thorough else 250)
     return cases
 
@@ -947,7 +994,7 @@ def run(ctx: Ctx) -> None:
     nontrivial = set()
     for r in res:
         o = r["case"].get("origin", "?").split(":")
-        key = ":".join(o[:2]) if o[0] in ("single", "random") else o[0]
+        key = ":".join(o[:2]) if o[0] in ("single", "random", "spelled") else o[0]
         hist[key] = hist.get(key, 0) + 1
         if canon(r["impl"]) is not None and r["impl"]["rows"]:
             nontrivial.add(vlib.digest(r["case"]["frames"]))
